@@ -29,6 +29,7 @@ META = {
     "equality of spans are not decided.",
 }
 META["technique"] += '; emission-to-resync no-advance typestate; who-may-build-tokens audit with position-argument provenance'
+META["technique"] += '; polarity-aware path facts for the position guards; sentinel handling of the line searches; source hand-through in BaseLoader.load; unless/if parse comparator'
 META["level_text"] += " Also decided (R1c, R4): the scan pointer does not move between a token's emission and the resync (no gap), and no token is built outside the lexer with a position of its own (only the position-less end-of-input token)."
 
 S, U, T = "synced", "unsynced", "unknown"
@@ -920,6 +921,15 @@ def run(prog: Program, res: Result) -> None:
                     via_bad = any(lab == bad and (m is node or node.id in fcfg.reachable(m, avoid=lambda x, t=t: x is t)) for m, lab in t.succ)
                     if not via_bad:
                         guarded = True
+            # polarity: what is *known* where the call stands - the token is there and its start is not negative
+            if guarded:
+                known: list[tuple[str, bool]] = []
+                for t_, pol_ in _path_condition_c17(exc_mod, f.node, c):
+                    known += _known_leaves(t_, pol_)
+                has_start = any((txt.endswith(".start < 0") and not v) or ((txt.endswith(".start >= 0") or txt.endswith(".start > -1")) and v) for txt, v in known)
+                has_token = any((txt.endswith("token is None") and not v) or (txt.endswith("token is not None") and v) or (txt.endswith("token") and v) for txt, v in known)
+                if not (has_start and has_token):
+                    guarded = False
             if guarded:
                 res.ok("C17.R12", site, what, "dominated by a test on the token's start")
             else:
@@ -931,6 +941,14 @@ def run(prog: Program, res: Result) -> None:
     from checks.shared import check_no_text_normalisation
 
     check_no_text_normalisation(prog, res, "C17.R13")
+    res.rule("C17.R14", "the errors and nodes of `unless` carry the same tokens as those of `if`: UnlessTag.parse equals IfTag.parse after renaming (an error about an `elsif` without an expression points at that `elsif`, not at the opening tag)")
+    from checks.shared import check_unless_mirrors_if
+
+    check_unless_mirrors_if(prog, res, "C17.R14", only=("parse",))
+    res.rule("C17.R15", "the text that is tokenized is the text the loader returned: BaseLoader.load[_async] passes `source` from get_source() to Environment.from_string() unchanged (no stripped byte order mark, no normalised line ends) - token.source, every span and every error position refer to the loader's source")
+    from checks.shared import check_load_hands_through
+
+    check_load_hands_through(prog, res, "C17.R15", "source")
 
     # ---------------------------------------------------------------- R1d: saved start marks are fresh when a token is built from them
     res.rule("C17.R1d", "a token built with start=self.<mark> (markup_start, line_start: scan positions saved from self.start) is reached only on paths where the mark was saved after the previous token built from it - across state-function hand-overs (interprocedural fixpoint)")
@@ -1571,6 +1589,25 @@ def check_scratch_lists(prog: Program, res: Result, rule: str, lm=None) -> None:
                 res.fail(rule, file=rel, line=c.lineno, qualname=fi.qualname, construct=f"{fi.qualname}: self.{attr} handed to {norm(c.func)} and kept", message=f"{fi.qualname} hands self.{attr} to `{norm(c.func)}` and can return (line {leak[0].line}) without rebinding it to a fresh list: the tokens of this markup are also the beginning of the next markup's list", what=what)
     res.floor(rule, "scanner lists handed to tokens", n_hand, 6)
 
+def _known_leaves(test: ast.expr, polarity: bool) -> list[tuple[str, bool]]:
+    """Leaf conditions whose truth value is known when *test* evaluated to *polarity* (a conjunction that held, a disjunction that failed)."""
+    if isinstance(test, ast.UnaryOp) and isinstance(test.op, ast.Not):
+        return _known_leaves(test.operand, not polarity)
+    if isinstance(test, ast.BoolOp):
+        if (isinstance(test.op, ast.And) and polarity) or (isinstance(test.op, ast.Or) and not polarity):
+            out: list[tuple[str, bool]] = []
+            for v in test.values:
+                out += _known_leaves(v, polarity)
+            return out
+        return []
+    return [(norm(test, 200), polarity)]
+
+
+def _path_condition_c17(mod, fn: ast.AST, node: ast.AST) -> list[tuple[ast.expr, bool]]:
+    from checks.C15 import _path_condition
+    return _path_condition(mod, fn, node)
+
+
 def check_line_model(prog: Program, res: Result, rule: str) -> None:
     """One notion of line break in the offset -> line/column functions of exceptions.py and messages.py, and offsets summed over
     `splitlines(keepends=True)` pieces only (C17.R5 = C15.R10)."""
@@ -1676,6 +1713,47 @@ def check_line_searches(prog: Program, res: Result, rule: str) -> None:
         else:
             diff = "loop" if major is None or sig[0] != major[0] else ("initial values" if sig[1] != major[1] else "line expression")
             res.fail(rule, file=f_.file, line=f_.node.lineno, qualname=f_.qualname, construct=f"{f_.qualname}: {diff} differs from the sibling line searches", message=f"{f_.qualname} searches the line of an offset differently from its siblings ({diff}: `{(sig[0] if diff == 'loop' else sig[1] if diff == 'initial values' else sig[2])[:90]}` vs `{(major[0] if diff == 'loop' else major[1] if diff == 'initial values' else major[2])[:90] if major else ''}`): error positions and message line numbers for the same token disagree, so at least one does not refer to the construct it describes", what=what)
+    # the sentinel: what the search answers when the loop found no line. `found == <initial value>` (that polarity) leads to a raise or
+    # to the last line, and to nothing else - negated, every offset that *was* found is moved to the last line / refused
+    for f_, _sig in sib:
+        loops_ = [n for n in ast.walk(f_.node) if isinstance(n, ast.For) and isinstance(n.iter, ast.Call) and isinstance(n.iter.func, ast.Name) and n.iter.func.id == "enumerate" and prog.enclosing_function(f_.module, n) is f_]
+        if len(loops_) != 1:
+            continue  # reported above
+        found_ = next((a.targets[0].id for a in ast.walk(loops_[0]) if isinstance(a, ast.Assign) and len(a.targets) == 1 and isinstance(a.targets[0], ast.Name) and isinstance(a.value, ast.Name) and isinstance(loops_[0].target, ast.Tuple) and isinstance(loops_[0].target.elts[0], ast.Name) and a.value.id == loops_[0].target.elts[0].id), None)
+        init_ = next((a.value for a in ast.walk(f_.node) if isinstance(a, ast.Assign) and len(a.targets) == 1 and isinstance(a.targets[0], ast.Name) and a.targets[0].id == found_ and isinstance(a.value, (ast.Constant, ast.UnaryOp))), None)
+        site = f"{f_.file}:{f_.node.lineno} {f_.qualname}"
+        what = f"{f_.qualname}: an offset past the last line is refused or put on the last line, and only such an offset"
+        if found_ is None or init_ is None:
+            continue
+        body_ = f_.node.body
+        after = body_[body_.index(loops_[0]) + 1:] if loops_[0] in body_ else []
+        tests_ = [st for st in after if isinstance(st, ast.If) and found_ in {x.id for x in ast.walk(st.test) if isinstance(x, ast.Name)}]
+        lines_name = norm(loops_[0].iter.args[0])
+        problem = None
+        if len(tests_) != 1:
+            problem = f"{len(tests_)} tests of `{found_}` after the loop"
+        else:
+            t_ = tests_[0]
+            if norm(t_.test) != f"{found_} == {norm(init_)}":
+                problem = f"the test is `{norm(t_.test, 60)}`, not `{found_} == {norm(init_)}`"
+            elif t_.orelse:
+                problem = "the sentinel test has an else branch"
+            elif not (len(t_.body) == 1 and (isinstance(t_.body[0], ast.Raise) or (isinstance(t_.body[0], ast.Assign) and norm(t_.body[0]) == f"{found_} = len({lines_name}) - 1"))):
+                problem = f"the sentinel branch is `{norm(t_.body[0], 60)}`: neither a raise nor `{found_} = len({lines_name}) - 1`"
+        # the lines searched are the pieces of the source, with nothing but `or [""]` (an empty source has one empty line) around them
+        if problem is None:
+            scope_ = f_.node if any(isinstance(a, ast.Assign) and norm(a.targets[0]) == lines_name for a in ast.walk(f_.node)) else next((a for a in f_.module.ancestors(f_.node) if isinstance(a, (ast.FunctionDef, ast.AsyncFunctionDef))), f_.node)
+            for a in ast.walk(scope_):
+                if isinstance(a, ast.Assign) and len(a.targets) == 1 and norm(a.targets[0]) == lines_name:
+                    v_ = a.value
+                    if isinstance(v_, ast.BoolOp) and isinstance(v_.op, ast.Or) and len(v_.values) == 2 and norm(v_.values[1]) in ("['']", '[""]'):
+                        v_ = v_.values[0]
+                    if not (isinstance(v_, ast.Call) and isinstance(v_.func, ast.Attribute) and v_.func.attr == "splitlines"):
+                        problem = f"`{lines_name}` is `{norm(a.value, 60)}`, not the splitlines() pieces of the source (or `[\"\"]` for an empty one)"
+        if problem:
+            res.fail(rule, file=f_.file, line=(tests_[0].lineno if tests_ else f_.node.lineno), qualname=f_.qualname, construct=f"{f_.qualname}: sentinel of the line search mishandled", message=f"{f_.qualname}: {problem} - an offset the loop placed on a line is moved or refused, or an offset past the end indexes lines[{norm(init_)}]: the reported line is not the token's", what=what)
+        else:
+            res.ok(rule, site, what, f"`if {found_} == {norm(init_)}` -> {'raise' if isinstance(tests_[0].body[0], ast.Raise) else 'last line'}")
     # column = offset - start of the found line
     ec = sib[0][0]
     params = [a.arg for a in ec.node.args.args]
